@@ -30,6 +30,14 @@ package requestcontext
 //@   ensures ret0.Path == pathUnescape(ret0.RawPath)
 //@   ensures ret0.User == nil && ret0.Fragment == "" && ret0.Opaque == ""
 
+// "the client address list come[s] only from the actual connection": without Forwarded and
+// X-Forwarded-For headers (the trusted proxy middleware removes them for untrusted peers) the list
+// is exactly the peer address of the connection; in every case the peer address is its last entry.
+//@ func (*RequestContext).requestClientIPs
+//@   props C09
+//@   ensures len(ret0) >= 1 && ret0[len(ret0) - 1] == peerIP(old(r.req.RemoteAddr))
+//@   ensures headerGet(old(r.req.Header), "Forwarded", hver) == "" && headerGet(old(r.req.Header), "X-Forwarded-For", hver) == "" ==> len(ret0) == 1
+
 // ---- C13: the request view handed to the pipeline (HTTP decision service and proxy share this
 // implementation; the Envoy gRPC one in envoyextauth/grpcv3 has contracts of the same shape) ----
 
